@@ -199,8 +199,19 @@ def run_life_scenario(sc):
     def other_profiler(frame, event, arg):
         return None
 
+    def prog_profiler(frame, event, arg):
+        return None
+
     def program(obs):
-        for j, f in enumerate(calls):
+        j = -1
+        for h in sc["hist"]:
+            if h["op"] == "SetProfile":      # the program replaces the profiler inside the block
+                sys.setprofile(None if h["x"] == "none" else prog_profiler)
+                continue
+            if h["op"] != "Call":
+                continue
+            j += 1
+            f = h["x"]
             x = T.TRaisingClass() if f == "inspect" else j
             T.ROLE[0] = "arg"
             obs.append(M.f_arg(x))
@@ -302,7 +313,7 @@ def main(pid, tier, seed, replay=None):
         scs = []
         from mtfx import tripwires  # noqa: F401  (names only)
         protos = ["getattribute", "getattr", "class_prop", "descriptor", "lazy_property", "list_sub", "dict_sub", "set_sub",
-                  "tuple_sub", "hash_eq", "bool", "repr", "meta_class", "meta_instance"]
+                  "tuple_sub", "defaultdict_sub", "getattr_raises", "hash_eq", "bool", "repr", "meta_class", "meta_instance"]
         for kind in KINDS:
             for role in ROLES:
                 if role in ("ret", "yield", "global_same_name", "caller_local") and kind != "module_function":
@@ -334,7 +345,7 @@ def main(pid, tier, seed, replay=None):
                     cause = ("metaclass_hook_of_a_value_class" if cell[1].startswith("meta.") and value_role else
                              "getattr_on_lookup_candidate" if cell[0] in ("global_same_name", "caller_local")
                              or (sc.get("kind") == "unresolvable" and cell[0] == "arg"
-                                 and sc.get("proto") in ("getattribute", "getattr", "descriptor", "lazy_property", "meta_class"))
+                                 and sc.get("proto") in ("getattribute", "getattr", "getattr_raises", "descriptor", "lazy_property", "meta_class"))
                              else "other")
                     vio = {"clause": clause, "role": cell[0], "hook": cell[1], "cause": cause}
                     if sc["type"] == "hooks" and sc["role"] in ("global_other",):
